@@ -291,6 +291,8 @@ class PoolApiStream(Stream):
     def oracle(self, case, obs):
         out = []
         cur = None
+        latest = {}      # pool index -> the proposal its latest call is documented to make
+        only_regular = not any(p["op"] for p in case["pools"])
         for i, (e, x) in enumerate(zip(case["script"], obs["log"])):
             if e["t"] == "bounds":
                 cur = e["sys"]
@@ -302,9 +304,19 @@ class PoolApiStream(Stream):
                 out.append({"what": f"api: step {i} {e}: raised {x['error']}", "finding": None})
             if p == "ValueError" and (x["request"] is not None):
                 out.append({"what": f"api: step {i} {e}: a rejected call still produced a request", "finding": None})
+            if p not in (None, "ValueError"):
+                latest[e["pool"]] = {"prio": p["prio"], "src": obs["sources"][e["pool"]], "pref": p["pref"], "lo": p["lo"], "hi": p["hi"]}
             r = x["request"]
             if r is None:
                 continue
+            # regular pools only: only the LATEST call of each pool counts; the request is the closest
+            # admissible value for the lowest-priority preference (independent oracle of the history stream)
+            if only_regular and cur is not None and M.wf_sys(cur) and cur["incl"] is not None and latest:
+                from harness import c04 as C04
+                exp, ok = C04.expected_target(cur, list(latest.values()))
+                if ok and r != exp:
+                    out.append({"what": f"latest-call: step {i}: with the latest call of each pool {list(latest.values())} the closest admissible "
+                                        f"value is {exp} W but {r} W is requested", "finding": None})
             if x["request_ids"] != sorted(BATS):
                 out.append({"what": f"api: step {i}: request addresses {x['request_ids']}, the pool's batteries are {sorted(BATS)}", "finding": None})
             if cur is not None and M.wf_sys(cur):
